@@ -177,6 +177,14 @@ func (op *Op) run() {
 			t.fc = fc
 		}
 	case "ProcessSlot":
+		if op.G == 0 {
+			// set-up call: keep the documented precondition (known parent, later slot); otherwise ask instead of telling
+			if first, ok := t.fc.GetSlot(mkRoot(op.Parent)); !ok || int(first) >= op.Slot {
+				op.Ev, op.Q, op.Root = "Query", "GetSlot", op.Parent
+				op.run()
+				return
+			}
+		}
 		t.fc.ProcessSlot(mkRoot(op.Parent), common.Slot(op.Slot), common.Epoch(op.JE), common.Epoch(op.FE))
 		op.Ret = &Ret{Ok: 1}
 	case "ProcessBlock":
